@@ -13,7 +13,7 @@ def find(ctx, name):
 
 def run(ctx):
     thorough = ctx.tier == "thorough"
-    ctx.rule = ("cases = every sequence of request kinds {ok, malformed arguments, unknown method, declared exception, undeclared "
+    ctx.rule = ("cases = every sequence of request kinds {ok, ok with a reply over the caller-stated limit (HTTP 413), malformed arguments, unknown method, declared exception, undeclared "
                 "error, handler's application exception, oneway, failing oneway} of length <= L (quick 3, thorough 4) enumerated by "
                 "TLC with the reply list Server's Process forces; each sequence is sent as hand-built frames on its own connection "
                 "(4 (thorough 8) connections concurrently) to the real simple (TCP), HTTP and NATS servers running the generated "
